@@ -1,11 +1,26 @@
 // T-harness for cocls::mutex (C07, C08): contenders on real threads under the baton scheduler, one scheduling
 // point after every atomic operation of the unmodified header plus one inside every critical section.
+// The contenders work through `mutex::ownership` objects: every grant is stored into an ownership object (the contender's
+// own one or a slot shared by all contenders, which the mutex itself guards) and given up through that object.
 //
 //   case <id> mutex
-//   t sync <round>...      round = l<rel> (blocking lock().wait()) | t<rel> (try_lock);  rel = x (release(), discarded) | d (ownership destroyed)
-//   t coro <round>...      round = c<rel> (co_await lock());  rel = x | d | a (co_await release())
+//   t sync <round>...      a contender that is an ordinary thread
+//   t coro <round>...      a contender that is a coroutine (started on its own thread, continues wherever it is resumed)
 //   sched <tid>...
 //   end
+//
+//   round = <fl><rel><opt>*
+//     fl   l  blocking lock (`lock().wait()`); in a coroutine contender: issued by an ordinary helper function called from the
+//             running coroutine (`wait()` where it is legal, i.e. the mutex is free, `force_wait()` otherwise)
+//          t  `try_lock()`
+//          c  `co_await lock()`                                   (coroutine contenders only)
+//          k  callback awaiter registered with `co_awaiter<mutex>::subscribe()`, granted inline by the releasing party
+//                                                                 (thread contenders only)
+//     rel  x  `release()`, suspend point discarded      d  ownership destroyed (shared slot: an empty ownership is assigned)
+//          a  `co_await release()`  (coroutines only)   m  ownership moved into a temporary (move construction), which is destroyed
+//          g  hand-over-hand: the ownership of the contender's auxiliary mutex is move-assigned over the held one
+//             (own object only); the auxiliary mutex is released at the end of the round
+//     opt  s  the ownership lives in the shared slot     f  `force_wait()` spelling     o  `ownership own(mx.lock())` spelling
 #include "shim/verif_shim.h"
 #include "shim/rename_on.h"
 #include <cocls/future.h>
@@ -26,11 +41,14 @@ static std::vector<std::string> split(const std::string &s) {
     return o;
 }
 
+static bool has_opt(const std::string &rd, char c) { return rd.find(c, 2) != std::string::npos; }
+
 struct Scn {
     mutex_t mx;
+    mutex_t::ownership slot;            // shared ownership object: touched only by the current owner of mx
+    std::deque<mutex_t> aux;            // one private auxiliary mutex per contender
     int in_cs = 0;
     std::vector<int> rounds_done;
-    std::vector<int> resumes;   // per coroutine contender: how many times it acquired
 
     void log(const std::string &s) { S().log_line(s); }
 
@@ -44,16 +62,45 @@ struct Scn {
         vshim::Sched::tag() = a;
     }
 
+    // give the ownership held in *o up (everything but the awaited release)
+    void give_up(int a, mutex_t::ownership *o, const std::string &rd, bool shared) {
+        switch (rd[1]) {
+            case 'x': o->release(); break;
+            case 'd': if (shared) *o = mutex_t::ownership(); break;        // own object: destroyed at the end of the round
+            case 'm': { mutex_t::ownership tmp(std::move(*o)); } break;
+            case 'g': *o = aux[a].try_lock(); break;
+            default: break;
+        }
+    }
+
+    // blocking lock, spelled as the round asks; `in_coro`: the caller is an ordinary function running inside a coroutine
+    void blocking_lock(mutex_t::ownership *o, const std::string &rd, bool in_coro) {
+        bool legal_wait = !in_coro || mx._requests.raw() == nullptr;   // wait() asserts in a coroutine unless there is nothing to wait for
+        if (has_opt(rd, 'f') || !legal_wait) *o = mx.lock().force_wait();
+        else if (has_opt(rd, 'o')) { mutex_t::ownership own(mx.lock()); *o = std::move(own); }
+        else *o = mx.lock().wait();
+    }
+
     async<void> coro_contender(int a, std::vector<std::string> rounds) {
         int r = 0;
         for (auto &rd : rounds) {
             {
                 vshim::Sched::tag() = a;
-                mutex_t::ownership own = co_await mx.lock();
+                bool shared = has_opt(rd, 's');
+                mutex_t::ownership own;
+                mutex_t::ownership *o = shared ? &slot : &own;
+                if (rd[0] == 't') {
+                    *o = mx.try_lock();
+                    if (!*o) { log("try-fail a" + std::to_string(a) + " r" + std::to_string(r)); rounds_done[a]++; r++; continue; }
+                } else if (rd[0] == 'l') {
+                    blocking_lock(o, rd, true);
+                } else {
+                    *o = co_await mx.lock();
+                }
                 crit(a, r);
-                if (rd[1] == 'x') { own.release(); }
-                else if (rd[1] == 'a') { co_await own.release(); }
-                // 'd': destroyed at scope exit
+                if (rd[1] == 'a') { co_await o->release(); }
+                else give_up(a, o, rd, shared);
+                vshim::Sched::tag() = a;
             }
             vshim::Sched::tag() = a;
             rounds_done[a]++;
@@ -62,20 +109,47 @@ struct Scn {
         log("done a" + std::to_string(a));
     }
 
+    struct CbAw : awaiter {
+        CbAw(co_awaiter<mutex_t> &req, mutex_t::ownership *o) : awaiter(&granted, this), req(req), o(o) {}
+        static suspend_point<void> granted(awaiter *, void *ctx) noexcept {
+            auto me = static_cast<CbAw *>(ctx);
+            *me->o = me->req.await_resume();    // runs inside the previous owner's unlock()
+            me->got = true;
+            return {};
+        }
+        co_awaiter<mutex_t> &req;
+        mutex_t::ownership *o;
+        bool got = false;
+    };
+
     void sync_contender(int a, std::vector<std::string> rounds) {
         int r = 0;
         for (auto &rd : rounds) {
             {
+                bool shared = has_opt(rd, 's');
                 mutex_t::ownership own;
+                mutex_t::ownership *o = shared ? &slot : &own;
                 vshim::Sched::tag() = a;
                 if (rd[0] == 't') {
-                    own = mx.try_lock();
-                    if (!own) { log("try-fail a" + std::to_string(a) + " r" + std::to_string(r)); rounds_done[a]++; r++; continue; }
+                    *o = mx.try_lock();
+                    if (!*o) { log("try-fail a" + std::to_string(a) + " r" + std::to_string(r)); rounds_done[a]++; r++; continue; }
+                } else if (rd[0] == 'k') {
+                    co_awaiter<mutex_t> req = mx.lock();
+                    CbAw cb(req, o);
+                    if (req.await_ready() || !req.subscribe(&cb)) {
+                        *o = req.await_resume();
+                    } else {
+                        bool *g = &cb.got;
+                        if (!*g) { S().log_op("cb-block"); S().block([g] { return *g; }); }
+                        S().log_op("cb-pass");
+                        S().yield();
+                    }
                 } else {
-                    own = mx.lock().wait();
+                    blocking_lock(o, rd, false);
                 }
                 crit(a, r);
-                if (rd[1] == 'x') { own.release(); }
+                give_up(a, o, rd, shared);
+                vshim::Sched::tag() = a;
             }
             rounds_done[a]++;
             r++;
@@ -87,6 +161,7 @@ struct Scn {
         S().name_obj(&mx._requests, "req");
         S().name_ptr(&awaiter::instance, "door");
         rounds_done.assign(threads.size(), 0);
+        for (std::size_t i = 0; i < threads.size(); i++) { aux.emplace_back(); S().name_obj(&aux.back()._requests, "aux"); }
         int tid = 0;
         for (auto &t : threads) {
             std::vector<std::string> rounds(t.begin() + 2, t.end());
@@ -102,10 +177,13 @@ struct Scn {
             _exit(0);
         }
         std::string rq = mx._requests.raw() == nullptr ? "free" : (mx._requests.raw() == &awaiter::instance ? "locked" : "chain");
-        log("final req=" + rq + " queue=" + (mx._queue ? "nonempty" : "empty"));
+        bool aux_free = true;
+        for (auto &m : aux) if (m._requests.raw() != nullptr) aux_free = false;
+        log("final req=" + rq + " queue=" + (mx._queue ? "nonempty" : "empty") + " slot=" + (slot ? "armed" : "empty") +
+            " aux=" + (aux_free ? "free" : "locked"));
         for (std::size_t i = 0; i < threads.size(); i++)
             log("agent a" + std::to_string(i) + " rounds=" + std::to_string(rounds_done[i]) + "/" + std::to_string(threads[i].size() - 2));
-        if (mx._requests.raw() != nullptr || mx._queue) { log("end"); std::cout.flush(); _exit(0); }
+        if (mx._requests.raw() != nullptr || mx._queue || slot || !aux_free) { log("end"); std::cout.flush(); _exit(0); }
     }
 };
 
